@@ -361,17 +361,19 @@ var c10MaxAlloc uint64
 func c10Read(t c10TB, st *vstats.Collector, b []byte) (msg Message, rest int,
 	err error) {
 
-	defer func() {
-		if r := recover(); r != nil {
-			t.Fatalf("ReadMessage panicked: %v\ninput(%d)=%x", r, len(b),
-				c10Head(b))
-		}
-	}()
-	var rd *bytes.Reader
+	var (
+		rd       *bytes.Reader
+		panicked any
+	)
 	alloc := c10Measure(func() {
+		defer func() { panicked = recover() }()
 		rd = bytes.NewReader(b)
 		msg, err = ReadMessage(rd, 0)
 	})
+	if panicked != nil {
+		t.Fatalf("ReadMessage panicked: %v\ninput(%d)=%x", panicked,
+			len(b), c10Head(b))
+	}
 	if alloc > c10MaxAlloc {
 		c10MaxAlloc = alloc
 	}
